@@ -31,7 +31,7 @@
    that the real rewriter emits this statement list (structural correspondence on the range
    corpus and the differential check of every kind x form). *)
 From Coq Require Import List ZArith.
-From Verif Require Import Base Syntax Sem Rewrite Side Iters RangeLoop RangeMain.
+From Verif Require Import Base Syntax Sem Rewrite Side Iters RangeLoop RangeMain Link LinkMachine.
 Import ListNotations.
 
 Theorem C04_range_statement :
@@ -95,6 +95,39 @@ Theorem C04_compiled_range_partial :
                      (yden I X V P ydenX) (env I X V envX) true m out (i, x) = Some (mapf I X P i' (final_of c)).
 Proof. exact compiled_range. Qed.
 Print Assumptions C04_compiled_range_partial.
+
+(* ... and on the machine model of seq/seq.go: the world of the machine is ((iterator state, user world), count) *)
+Theorem C04_machine_range_partial :
+  forall (I X K V P : Type)
+         (adenX : nat -> X -> outcome X P unit) (cdenX : nat -> X -> outcome X P bool)
+         (tdenX : nat -> X -> outcome X P nat) (kval : nat -> nat) (ydenX : nat -> X -> outcome X P V)
+         (envX : nat -> V -> X -> X * bool) (zeroV : V)
+         (imn : I -> I * bool) (icur : I -> X -> K) (bind : K -> X -> X)
+         (a_bind c_mn a_init : nat) (inew : X -> I) (B rest : list stmt),
+    Forall (UserS a_bind c_mn a_init) B ->
+    Forall (UserS a_bind c_mn a_init) rest ->
+    a_init <> a_bind ->
+    c01_hyps (range_stmts a_bind c_mn a_init B rest) = true ->
+    exists out, rewrite (range_stmts a_bind c_mn a_init B rest) = OK out /\
+      (forallb (lk KS) out = true ->
+       forall es n i x c,
+         iter_elems I X K imn icur (inew x) es ->
+         range_then X K V P adenX cdenX tdenX kval ydenX envX bind B rest n es (x, 0) = Some c ->
+         final_of c <> FStuck ->
+         exists i' M, forall N F, M <= N -> M <= F ->
+           machine_target (I * X) V P (aden I X K P adenX icur bind a_bind a_init inew) (cden I X P cdenX imn c_mn) (tden I X P tdenX) kval
+                          (yden I X V P ydenX) (env I X V envX) zeroV KS out (i, x) N F = Some (mapf I X P i' (final_of c))).
+Proof.
+  intros I X K V P adenX cdenX tdenX kval ydenX envX zeroV imn icur bind a_bind c_mn a_init inew B rest HB Hrest Hd Hh.
+  destruct (compiled_range I X K V P adenX cdenX tdenX kval ydenX envX imn icur bind a_bind c_mn a_init inew B rest HB Hrest Hd Hh) as [out [Ho Hc]].
+  exists out. split; [exact Ho|]. intros Hlk es n i x c Hie Hr Hns.
+  destruct (Hc es n i x c Hie Hr Hns) as [m [i' Hm]]. exists i'.
+  assert (Hns' : mapf I X P i' (final_of c) <> FStuck).
+  { clear - Hns. destruct (final_of c); cbn [mapf]; try discriminate. exact (fun _ => Hns eq_refl). }
+  exact (machine_link (I * X) V P (aden I X K P adenX icur bind a_bind a_init inew) (cden I X P cdenX imn c_mn) (tden I X P tdenX) kval
+                      (yden I X V P ydenX) (env I X V envX) zeroV KS out m (i, x) (mapf I X P i' (final_of c)) Hlk Hm Hns').
+Qed.
+Print Assumptions C04_machine_range_partial.
 
 (* the specification computes what one expects: `for k := range 4 { log k; if k == 2 { break } }` *)
 Example C04_spec_example :
